@@ -455,7 +455,7 @@ func init() {
 	core.Register(&core.Prop{
 		ID:        "C09",
 		Technique: "presence monitor: pointer / pointer-map-value / null.* positions driven through {absent, present zero, present empty, present non-zero}; nil-ness and Valid compared across the real round trip; Descriptor ExplicitPresence flags compared with the type",
-		Rule: "four damaged copies of a message are decoded (and mostly rejected) before every second good decode; every message is also decoded into the previous iteration's target; the first descriptions of a type are asked for by 4 goroutines at once in a third of the cases. A generated pointee type T, key type K (8 kinds incl. two struct keys, one with null.Int / null.Bool fields) and null type N are placed in every presence-bearing position (field, map value under zero and non-zero keys, inside a slice of structs, nested struct, pointer to struct); the pointer states absent / present-zero / present-empty / present-generated are cycled systematically, the rest of the value is boundary-biased. " +
+		Rule: "structs of exactly one pointer (plain, a zero-size field before or after it) are marshalled by value and by pointer for every presence state; four damaged copies of a message are decoded (and mostly rejected) before every second good decode; every message is also decoded into the previous iteration's target; the first descriptions of a type are asked for by 4 goroutines at once in a third of the cases. A generated pointee type T, key type K (8 kinds incl. two struct keys, one with null.Int / null.Bool fields) and null type N are placed in every presence-bearing position (field, map value under zero and non-zero keys, inside a slice of structs, nested struct, pointer to struct); the pointer states absent / present-zero / present-empty / present-generated are cycled systematically, the rest of the value is boundary-biased. " +
 			"distinct = (type, configuration, value-shape) hashes",
 		Assume: []string{"known findings D4 (pointer to nil pointer), D22 (pointer to empty repeated slice) and D24 (null.* as slice element or pointer target) are excluded from generation"},
 		Plan: func(tier string) []core.Lane {
